@@ -44,3 +44,19 @@ Theorem C16_eca_range taumax lag e1 e2 :
   (p12 <= d1 /\ t12 <= d2 /\ p21 <= d3 /\ t21 <= d4)%nat.
 Proof. exact (eca_range taumax lag e1 e2). Qed.
 Print Assumptions C16_eca_range.
+
+(* ---- the statements of event_synchronization AS WRITTEN IN THE CURRENT
+        event_series.py (regenerated on every run: distance and delay arrays,
+        the coincidence conditions, double-count loops, counts and norm) ---- *)
+From PV.Gen Require Import EventSyncK.
+From PV.Proofs Require Import EventSyncGen.
+
+Theorem C16_coincidence_conditions_are_model taumax p q :
+  gen_Axy (dst2 p q) (tau2 taumax p q) = Axy taumax p q /\
+  gen_Ayx (dst2 p q) (tau2 taumax p q) = Ayx taumax p q.
+Proof. exact (gen_conditions_are_model taumax p q). Qed.
+Print Assumptions C16_coincidence_conditions_are_model.
+
+Theorem C16_source_statements : gen_es_statements_are_model = true.
+Proof. exact gen_es_facts. Qed.
+Print Assumptions C16_source_statements.
